@@ -385,6 +385,7 @@ def run(tier):
         bi = state["batch"]
         state["batch"] += 1
         backend = "decimal" if bi % 2 else "f64"
+        defgen.LONG_LITERALS = backend == "f64"
         groups = []
         for gi in range(groups_per_batch):
             g = defgen.random_graph(rnd, prefix="T", ops_safe=True)
